@@ -23,6 +23,9 @@
 package main
 
 import (
+	"github.com/attestantio/go-eth2-client/spec/phase0"
+	"github.com/bloxapp/ssv/protocol/v2/blockchain/beacon"
+
 	"bufio"
 	"bytes"
 	"context"
@@ -201,17 +204,40 @@ type side struct { // one network configuration + validator per envelope mode
 }
 
 type sut struct {
-	out   *hx.Out
-	sides [2]*side // 0: before the permissionless activation epoch (bare message), 1: after (envelope)
+	out *hx.Out
+	// 0: long before the permissionless activation epoch (bare message), 1: long after (envelope),
+	// 2: the clock is IN the activation epoch (still bare), 3: in the epoch after it (the first with envelopes)
+	sides [4]*side
 	all   map[string]bool
 }
 
-func newSide(envelope bool) *side {
+// frozenNet is a beacon network whose clock stands still in one epoch, for the publisher
+// (EstimatedCurrentEpoch) and for the validator (EstimatedSlotAtTime of the reception time) alike.
+type frozenNet struct {
+	beacon.BeaconNetwork
+	epoch phase0.Epoch
+}
+
+func (f frozenNet) EstimatedCurrentEpoch() phase0.Epoch { return f.epoch }
+func (f frozenNet) EstimatedCurrentSlot() phase0.Slot {
+	return f.BeaconNetwork.FirstSlotAtEpoch(f.epoch) + 3
+}
+func (f frozenNet) EstimatedSlotAtTime(int64) phase0.Slot {
+	return f.BeaconNetwork.FirstSlotAtEpoch(f.epoch) + 3
+}
+
+// newSide: kind 0 never wraps, 1 always wraps, 2 / 3 stand at the fork boundary.
+func newSide(kind int) *side {
 	cfg := networkconfig.TestNetwork
-	if envelope {
+	switch kind {
+	case 1:
 		cfg.PermissionlessActivationEpoch = 0
-	} else {
+	case 0:
 		cfg.PermissionlessActivationEpoch = ^cfg.PermissionlessActivationEpoch // never
+	case 2:
+		cfg.Beacon = frozenNet{BeaconNetwork: cfg.Beacon, epoch: cfg.PermissionlessActivationEpoch}
+	case 3:
+		cfg.Beacon = frozenNet{BeaconNetwork: cfg.Beacon, epoch: cfg.PermissionlessActivationEpoch + 1}
 	}
 	s := &side{rec: &recorder{}, signer: &fixedSigner{sig: make([]byte, 256)}}
 	s.ods = operatordatastore.New(&registrystorage.OperatorData{ID: 1})
@@ -234,7 +260,9 @@ func (sd *side) freshNet() network.P2PNetwork {
 
 func newSut(out *hx.Out) *sut {
 	s := &sut{out: out, all: map[string]bool{}}
-	s.sides[0], s.sides[1] = newSide(false), newSide(true)
+	for k := range s.sides {
+		s.sides[k] = newSide(k)
+	}
 	for _, t := range commons.Topics() {
 		s.all[t] = true
 	}
@@ -267,7 +295,7 @@ func buildMsg(pk []byte) (*spectypes.SSVMessage, int, uint64, []byte) {
 	mt := hx.Pick(r, spectypes.SSVConsensusMsgType, spectypes.SSVPartialSignatureMsgType)
 	msg := &spectypes.SSVMessage{MsgType: mt, MsgID: spectypes.NewMsgID(networkconfig.TestNetwork.Domain, pk, role), Data: []byte{}}
 	opid := hx.Pick(r, uint64(1), 2, 13, 1<<32, ^uint64(0), r.Uint64())
-	return msg, r.Intn(2), opid, r.Bytes(256)
+	return msg, r.Intn(4), opid, r.Bytes(256)
 }
 
 func (s *sut) commonsPart(pk []byte) (subnet int, ids, full, base []string) {
@@ -334,7 +362,7 @@ func (s *sut) key(pk []byte) {
 		if !ok && reason != validation.ErrTopicNotFound.Text() {
 			s.out.ViolF("what Broadcast published on %s did not reach the validator's topic check: %s", c.wire, reason)
 		}
-		if mode == 1 { // the envelope at the real call site
+		if mode == 1 || mode == 3 { // the envelope at the real call site
 			enc, _ := commons.EncodeNetworkMsg(msg)
 			m, o, sg, err := commons.DecodeSignedSSVMessage(c.data)
 			if err != nil || !bytes.Equal(m, enc) || o != opid || !bytes.Equal(sg, sig) {
@@ -398,7 +426,7 @@ func (s *sut) accept(pk []byte, topic string) {
 	msg, mode, opid, sig := buildMsg(pk)
 	sd := s.sides[mode]
 	data, _ := commons.EncodeNetworkMsg(msg)
-	if mode == 1 {
+	if mode == 1 || mode == 3 {
 		data = commons.EncodeSignedSSVMessage(data, opid, sig)
 	}
 	ok, reason := s.validate(sd, topic, data)
